@@ -43,7 +43,7 @@ struct FrequentFamily {
       if (i & 1) sk.update(item, w); else sk.update(std::move(item), w);
     }
   }
-  static bool merge_ref(Env&, Obj& d, const Obj& s) { LibScope ls; d.merge(s); return true; }
+  template <typename SrcT> static bool merge_ref(Env&, Obj& d, SrcT& s) { LibScope ls; d.merge(s); return true; }
   static bool merge_move(Env&, Obj& d, Obj&& s) { LibScope ls; d.merge(std::move(s)); return true; }
   static bool reset(Obj&) { return false; }
   static Obj* serde(Env& e, const Obj& sk, uint64_t mode, int reg) {
@@ -97,7 +97,7 @@ struct CountMinFamily {
     vf::Rng r(seed);
     for (unsigned i = 0; i < n; ++i) { uint64_t v = r.below(50); uint64_t w = 1 + r.below(3); std::string sv = std::to_string(v); LibScope ls; if (i % 3) sk.update(v, w); else sk.update(sv, w); }
   }
-  static bool merge_ref(Env&, Obj& d, const Obj& s) { LibScope ls; d.merge(s); return true; }
+  template <typename SrcT> static bool merge_ref(Env&, Obj& d, SrcT& s) { LibScope ls; d.merge(s); return true; }
   static bool merge_move(Env&, Obj&, Obj&&) { return false; }
   static bool reset(Obj&) { return false; }
   static Obj* serde(Env& e, const Obj& sk, uint64_t mode, int reg) {
@@ -276,7 +276,7 @@ struct EbppsFamily {
       if (i & 1) sk.update(item); else sk.update(std::move(item));
     }
   }
-  static bool merge_ref(Env&, Obj& d, const Obj& s) { LibScope ls; d.merge(s); return true; }
+  template <typename SrcT> static bool merge_ref(Env&, Obj& d, SrcT& s) { LibScope ls; d.merge(s); return true; }
   static bool merge_move(Env&, Obj& d, Obj&& s) { LibScope ls; d.merge(std::move(s)); return true; }
   static bool reset(Obj& sk) { LibScope ls; sk.reset(); return true; }
   static Obj* serde(Env& e, const Obj& sk, uint64_t mode, int reg) {
@@ -325,7 +325,7 @@ struct TDigestFamily {
     vf::Rng r(seed);
     for (unsigned i = 0; i < n; ++i) { double x = static_cast<double>(batch_value(r, seed)) * 0.5; LibScope ls; td.update(x); }
   }
-  static bool merge_ref(Env&, Obj& d, const Obj& s) { LibScope ls; d.merge(s); return true; }
+  template <typename SrcT> static bool merge_ref(Env&, Obj& d, SrcT& s) { LibScope ls; d.merge(s); return true; }
   static bool merge_move(Env&, Obj&, Obj&&) { return false; }
   static bool reset(Obj&) { return false; }
   static Obj* serde(Env& e, const Obj& td, uint64_t mode, int reg) {
@@ -378,7 +378,7 @@ struct BloomFamily {
     if ((seed & 31) == 7) { LibScope ls; bf.invert(); return; }
     for (unsigned i = 0; i < n; ++i) { uint64_t v = batch_value(r, seed); std::string sv = std::to_string(v); LibScope ls; if (i % 3) bf.update(v); else bf.update(sv); }
   }
-  static bool merge_ref(Env& e, Obj& d, const Obj& s) { LibScope ls; if (e.seed & 1) d.union_with(s); else d.intersect(s); return true; }
+  template <typename SrcT> static bool merge_ref(Env& e, Obj& d, SrcT& s) { LibScope ls; if (e.seed & 1) d.union_with(s); else d.intersect(s); return true; }
   static bool merge_move(Env&, Obj&, Obj&&) { return false; }
   static bool reset(Obj& bf) { LibScope ls; bf.reset(); return true; }
   static Obj* serde(Env& e, const Obj& bf, uint64_t mode, int reg) {
@@ -435,7 +435,7 @@ struct DensityFamily {
       if (i & 1) sk.update(p); else sk.update(std::move(p));
     }
   }
-  static bool merge_ref(Env&, Obj& d, const Obj& s) { LibScope ls; d.merge(s); return true; }
+  template <typename SrcT> static bool merge_ref(Env&, Obj& d, SrcT& s) { LibScope ls; d.merge(s); return true; }
   static bool merge_move(Env&, Obj& d, Obj&& s) { LibScope ls; d.merge(std::move(s)); return true; }
   static bool reset(Obj&) { return false; }
   static Obj* serde(Env& e, const Obj& sk, uint64_t mode, int reg) {
